@@ -386,7 +386,19 @@ func (req *SrvReq) Respond() {
 		return
 	}
 
-	/* remove the request and all requests flushing it */
+	if rop, ok := (req.Conn.Srv.ops).(SrvReqProcessOps); ok {
+		rop.SrvReqRespond(req)
+	} else {
+		req.PostProcess()
+	}
+
+	if (status & reqFlush) == 0 {
+		conn.reqout <- req
+	}
+
+	/* remove the request and all requests flushing it; only now, with the
+	 * reply queued, so that a Tflush that no longer finds the request cannot
+	 * be answered ahead of that reply */
 	conn.Lock()
 	nextreq := req.prev
 	if nextreq != nil {
@@ -411,16 +423,6 @@ func (req *SrvReq) Respond() {
 		flushreqs = req.flushreq
 	}
 	conn.Unlock()
-
-	if rop, ok := (req.Conn.Srv.ops).(SrvReqProcessOps); ok {
-		rop.SrvReqRespond(req)
-	} else {
-		req.PostProcess()
-	}
-
-	if (status & reqFlush) == 0 {
-		conn.reqout <- req
-	}
 
 	// process the next request with the same tag (if available)
 	if nextreq != nil {
